@@ -255,7 +255,9 @@ bool exec_ss(Ctx &c, const Op &op) {
         SsObj *o = pick(v, op.a);
         if (!o) { c.skipped = true; return true; }
         size_t n = resolve_code(op.b, o->model.size());
-        if (n == ST_AUTO_SIZE) n = 0;
+        // counts far above the size are legal ("everything"): SIZE_MAX itself, and values just past the sign bit, where a count
+        // that an implementation turns into a signed difference wraps
+        if (op.b == 1005) n = (SIZE_MAX >> 1) + 1 + o->model.size() + (op.a & 3);
         char e[48]; std::snprintf(e, sizeof e, "%s,%s", mode(o), n < o->model.size() ? "below" : n == o->model.size() ? "at" : "above"); note_sig(c, op, e);
         if (o->moved_from) c.touched_moved_from = true;
         as_target(o);
